@@ -34,8 +34,12 @@ def policy(rng):
         p["sizes"] = rng.choice([1, 255, 32, 100])
     elif k == 1:
         p["sizes"] = [rng.randrange(1, 256) for _ in range(rng.randrange(1, 6))]
-    if rng.random() < 0.3:
+    r0 = rng.random()
+    if r0 < 0.2:
         p["ask_brothers"] = False
+    elif r0 < 0.6:
+        # per-block: the device asks for the brothers of some blocks only
+        p["ask_brothers"] = [rng.random() < 0.5 for _ in range(rng.randrange(2, 6))]
     r = rng.random()
     if r < 0.25:
         p["stop_after"] = rng.randrange(1, 4)
@@ -53,7 +57,7 @@ def gen(tier, rng):
     for i in range(n):
         big = (i % 25 == 24)
         if rng.random() < 0.55:
-            nb = rng.choice([1, 1, 2, 3, 5] + ([40] if big else []))
+            nb = rng.choice([1, 2, 3, 3, 4, 5] + ([40] if big else []))
             req, fulls = reqgen.advance_request(rng, nblocks=nb, maxbros=rng.choice([0, 2, 3, 10]), big=big)
             if rng.random() < 0.1:
                 # a 17/18-field header in an advance (no coinbase), or a duplicate brother
